@@ -3,6 +3,7 @@
 pub mod ast2sexp;
 pub mod caserun;
 pub mod common;
+pub mod consumer;
 pub mod extract;
 pub mod gen;
 pub mod model;
